@@ -419,6 +419,13 @@ def run(F, chk):
               "length (a table left behind by Clear / AddBlock / DeleteBlock is written against a rebuilt type table)")
     chk.floor("R7.8", 15)
 
+    # ------------------------------------------------------------------ R7.10
+    chk.share(F, "c05", ["R5.1"], "R7.10",
+              "the header string table is rebuilt on every save from what GetStringRefs reports: a string reference that a block "
+              "serialises but reports only under an extra condition (or not at all) is written with a stale index that the rebuilt "
+              "table does not cover")
+    chk.floor("R7.10", 600)
+
     # ------------------------------------------------------------------ R7.9
     R9 = chk.rule("R7.9", "the place of the size table recorded while a header is written (NiHeader::blockSizePos, set by Put only for "
                           "the versions that have the table) never survives the save that recorded it: every NifFile function that "
